@@ -175,8 +175,11 @@ def path_case(draw):
     s["x"]["xkind"] = "normal"
     bias_batch(draw, s)
     s["alpha"] = draw(st.sampled_from([0.05, 0.5, 2.0]))
+    if draw(st.booleans()):
+        s["verbose"] = True
     return {"spec": s, "path": {"alpha_multiplier": draw(st.sampled_from([1.5, 3.0])), "min_features": draw(st.integers(1, 2)),
-                                "max_patience": draw(st.integers(1, 3))}}
+                                "max_patience": draw(st.integers(1, 3))},
+            "mlcl": draw(mlcl_arg(s["n"])) if draw(st.booleans()) else None}
 
 
 @st.composite
@@ -206,6 +209,26 @@ def oracle_path(case):
     rec = BatchRecorder(est, keep=True)
     bsize = n if s.get("batch_size") is None else s["batch_size"]
     val = {"calls": 0, "bad": None, "alpha": None, "steps": []}
+    seen_rows = {"bad": None}
+    mlcl = case.get("mlcl")
+    if mlcl is not None:
+        # a decorated model: at every training step of the path the recorded sample indices are those of the batch at hand
+        from gemclus import add_mlcl_constraint
+        inner_grads = est._compute_grads
+
+        def watch(Xb, y_pred, gradient):
+            if seen_rows["bad"] is None:
+                idx = list(getattr(est._batchify, "indices", []))
+                if len(idx) != len(Xb) or not np.array_equal(np.asarray(Xb), X[idx]):
+                    seen_rows["bad"] = (idx, len(Xb))
+            return inner_grads(Xb, y_pred, gradient)
+
+        est._compute_grads = watch
+        try:
+            add_mlcl_constraint(est, mlcl["ml"] or None, mlcl["cl"] or None, mlcl["factor"])
+        except ValueError:
+            mlcl = None
+            est._compute_grads = inner_grads
 
     def on_val(clf, Xv, yv, batch_size, res):
         val["calls"] += 1
@@ -245,7 +268,10 @@ def oracle_path(case):
                         "note": f"{type(e).__name__}: {e}"}
     if val["bad"]:
         raise Violation(f"{label}: {val['bad']}")
-    partial = check_epochs(label, rec, False, n, bsize, False, None, X)
+    if seen_rows["bad"]:
+        raise Violation(f"{label}: decorated model {mlcl}: a training step of the path worked on a batch of {seen_rows['bad'][1]} rows "
+                        f"while the recorded sample indices were {seen_rows['bad'][0]} (not the samples of that batch)")
+    partial = check_epochs(label, rec, mlcl is not None, n, bsize, False, None, X)
     # the affinity every epoch works with: the user's matrix, or the named kernel / metric of the data - in dynamic mode of
     # the features still selected when the path step began
     base, ovo, aff = E.describe(s)
